@@ -88,7 +88,7 @@ func forests(n int, f func(parent []int)) {
 }
 
 var c01Origins = []string{"gopki-earlier-run", "stdlib-printable", "utf8-nonascii", "utf8-for-printable-value", "ia5-email", "multi-valued-rdn", "teletex",
-	"printable-with-ampersand", "printable-with-asterisk", "bmpstring", "numeric-and-printable-mix", "empty-value", "utf8-and-printable-in-one-rdn"}
+	"printable-with-ampersand", "printable-with-asterisk", "bmpstring", "numeric-and-printable-mix", "empty-value", "utf8-and-printable-in-one-rdn", "empty-name"}
 
 func c01Enumerate(tier string, yield func(any)) {
 	maxN := 3
@@ -520,6 +520,9 @@ func c01ForeignDN(origin string) (der []byte, subject string) {
 		return refder.Seq(rdn(atv("2.5.4.3", refder.Enc(0, refder.TagBMP, false, []byte{0, 'C', 0, 'A'})))), "CN=CA"
 	case "numeric-and-printable-mix":
 		return refder.Seq(rdn(atv("2.5.4.5", refder.Enc(0, 18, false, []byte("12345")))), rdn(atv("2.5.4.3", refder.EncPrintable("Imported CA")))), "CN=Imported CA, SERIALNUMBER=12345"
+	case "empty-name":
+		// a certificate whose subject is the empty sequence (30 00): what it issues names exactly that
+		return refder.Seq(), "CN=Imported CA"
 	case "empty-value":
 		return refder.Seq(rdn(atv("2.5.4.10", refder.EncUTF8(""))), rdn(atv("2.5.4.3", refder.EncPrintable("Imported CA")))), "CN=Imported CA"
 	case "utf8-and-printable-in-one-rdn":
